@@ -26,8 +26,11 @@ Record obs := {
   o_status : list status }.
 Definition OB := Build_obs.
 
-Record case := { c_ordp : list step; c_ordc : list step; c_threads : list thread; c_ops : list (mop * obs) }.
-Definition TD := Build_case.
+Inductive case :=
+| TD (ordp ordc : list step) (threads : list thread) (ops : list (mop * obs))
+    (* teardown: the step orders extracted by the translator, the threads, the forced schedule with what was seen *)
+| CL (nops : N) (all_returned table_empty : bool).
+    (* client transaction machinery under a slow PacketConn.WriteTo: did every call return, is the table empty *)
 
 Section Run.
   Variable ordp ordc : list step.
@@ -133,11 +136,17 @@ Definition final_ok (ops : list (mop * obs)) : bool :=
                     match o_chans ob with Some _ => true | None => false end
   end.
 
-Definition holds (c : case) : bool := forallb (fun p => obs_ok (snd p)) (c_ops c) && final_ok (c_ops c).
+Definition holds (c : case) : bool :=
+  match c with
+  | TD _ _ _ ops => forallb (fun p => obs_ok (snd p)) ops && final_ok ops
+  | CL _ ret empty => ret && empty
+  end.
 
 Definition run (c : case) : verdict :=
-  (forallb (initial) (c_threads c) &&
-   agree_from (c_ordp c) (c_ordc c) ((init, c_threads c), map (fun _ => SNew) (c_threads c)) (c_ops c),
-   holds c).
+  (match c with
+   | TD ordp ordc threads ops =>
+       forallb (initial) threads && agree_from ordp ordc ((init, threads), map (fun _ => SNew) threads) ops
+   | CL _ _ _ => true
+   end, holds c).
 
 Definition bad_cases (base : N) (cs : list case) := bad_from run base cs.
